@@ -11,6 +11,20 @@ From PV Require Import Num model.Tables model.Spec model.Basis gen.GenTables gen
 Import ListNotations.
 Local Open Scope num_scope.
 
+(* every function of the source this file is about was translated on this run *)
+Theorem basis_source_translated :
+  translated_gen_cell_dof = true /\
+  translated_gen_wyckoff_dof = true /\
+  translated_gen_site_basis = true /\
+  translated_gen_generate_basis_packed = true /\
+  translated_gen_generate_basis_potential = true /\
+  translated_gen_initial_length = true /\
+  translated_gen_initial_length_potential = true /\
+  translated_gen_initial_angle = true /\
+  translated_gen_initial_ratio = true /\
+  translated_gen_initial_site = true.
+Proof. repeat split; reflexivity. Qed.
+
 Section BasisSource.
   Variable NN : Num.
   Notation T := (carrier NN).
